@@ -85,16 +85,33 @@ const (
 )
 
 // saveMapGob saves a map to a file using gob encoding.
-func saveMapGob[K comparable, V any](filePath string, data map[K]V) error {
-	file, err := os.Create(filePath)
+func saveMapGob[K comparable, V any](filePath string, data map[K]V) (err error) {
+	// The map is written to a temporary file that is renamed into place once complete, so that
+	// a crash while saving never leaves a truncated file which LoadFromDisk cannot decode.
+	tmpPath := filePath + ".tmp"
+	file, err := os.Create(tmpPath)
 	if err != nil {
-		return fmt.Errorf("failed to create file %s: %w", filePath, err)
+		return fmt.Errorf("failed to create file %s: %w", tmpPath, err)
 	}
-	defer file.Close()
+	defer func() {
+		if err != nil {
+			_ = file.Close()
+			_ = os.Remove(tmpPath)
+		}
+	}()
 
 	encoder := gob.NewEncoder(file)
-	if err := encoder.Encode(data); err != nil {
-		return fmt.Errorf("failed to encode to file %s: %w", filePath, err)
+	if err = encoder.Encode(data); err != nil {
+		return fmt.Errorf("failed to encode to file %s: %w", tmpPath, err)
+	}
+	if err = file.Sync(); err != nil {
+		return fmt.Errorf("failed to sync file %s: %w", tmpPath, err)
+	}
+	if err = file.Close(); err != nil {
+		return fmt.Errorf("failed to close file %s: %w", tmpPath, err)
+	}
+	if err = os.Rename(tmpPath, filePath); err != nil {
+		return fmt.Errorf("failed to rename %s to %s: %w", tmpPath, filePath, err)
 	}
 	return nil
 }
